@@ -150,8 +150,12 @@ Definition prim_put (c : cell) (sname aname : Z) (a : app) (lease : Z) : cell :=
                                  <| s_apps ::= (fun l => l ++ [aname]) |>
                                  <| s_counters ::= cadd (a_aff a) 1 |>) c).
 
+(* Server.put asserts that the instance is not already on the server; the model refuses instead of failing an
+   assertion, and also refuses an instance that still names a server (never the case at a call site). *)
 Definition put_guard (c : cell) (s : server) (a : app) (lease : Z) : bool :=
-  check_lifetime c a lease s
+  negb (zmem (a_name a) (s_apps s))
+  && (match a_server a with None => true | Some _ => false end)
+  && check_lifetime c a lease s
   && check_constraints c a [s_label s] (s_traits s) (s_counters s) LEVEL_SERVER (s_free s).
 
 Definition srv_put_lease (c : cell) (sname aname : Z) (lease : Z) : option cell :=
@@ -203,6 +207,7 @@ Definition prim_remove (c : cell) (sname aname : Z) (a : app) : cell :=
 Definition srv_remove (c : cell) (sname aname : Z) : cell :=
   match get_srv sname (c_servers c), get_app aname (c_apps c) with
   | Some s, Some a =>
+      if negb (zmem aname (s_apps s)) then c else    (* Server.remove asserts membership *)
       let c1 := prim_remove c sname aname a in
       let c2 := bump_from c1 (s_parent s) [(a_aff a, 1)] (-1) in
       adjust_up_from c2 (s_parent s) (vadd (s_free s) (a_demand a))
